@@ -413,6 +413,7 @@ pub fn run(ctx: &mut Ctx) {
                 0 => BigUint::from(1 + idx % 3),
                 1 => &pr.n - 2u32 - BigUint::from(idx % 2),
                 2 | 3 => sparse_scalar(&mut p, 1 + (idx / 17) % 14),
+                4 => crate::sm2x::run_scalar(&mut p, &(&pr.n - 1u32)),
                 _ => rand_scalar(&mut p, &(&pr.n - 1u32)),
             };
             ctx.class(&format!("msg_len={}", len));
